@@ -180,3 +180,85 @@ def mechOld (m : Mode) (fill : V) (arrs : List Arr) (p : Idx) : V :=
   finishOld m (arrs.foldl (step m) (initOld fill) p)
 
 end Pew.Overlap
+
+namespace Pew.Overlap
+
+/-! ## field dtypes in the structured variant
+
+`overlap_structured_arrays` builds the merged dtype from `array.dtype.descr`, i.e. from
+**(name, dtype) pairs**: a name carried with two different dtypes enters the merged list twice and
+`np.empty(new_shape, dtype=new_dtype)` raises `ValueError: field 'A' occurs more than once`.
+The per-field canvas of `overlap_arrays` takes the dtype of `name_arrays[0]`: the first array's
+field, or `float64` when the first array lacks the field (the NaN stand-in `np.full(shape, nan)`).
+The finished canvas is then assigned into the field of the merged array, which casts to the
+field's dtype.  Three dtype classes are modelled: `f8`, `f4` (every generated value and sum is
+exactly representable, the mean's division is rounded by the harness's canonicaliser) and `i8`:
+
+* integer canvas (the first array has the field): `overlap[visits == 0] = nan` raises `ValueError`
+  (mean/sum, whatever the mask holds); otherwise the mean's in-place true division raises
+  `UFuncTypeError` (a `TypeError`, which is what the model names); `np.full(shape, fill, dtype=int)` and the fill assignment truncate a finite fill;
+* float canvas assigned into an integer field: truncation toward zero;
+* NaN cast to an integer is platform dependent (NumPy warns "invalid value encountered in cast"):
+  the model marks such a pixel as undefined (`none`) and the harness does not compare it. -/
+
+inductive DT | f8 | f4 | i8
+  deriving DecidableEq, Repr
+
+structure DArr where
+  off : List Int
+  shape : List Nat
+  fields : List (String × DT × (Idx → V))
+
+def DArr.descr (a : DArr) : List (String × DT) := a.fields.map (fun f => (f.1, f.2.1))
+
+/-- the same array with the dtypes forgotten -/
+def DArr.toS (a : DArr) : SArr :=
+  { off := a.off, shape := a.shape, fields := a.fields.map (fun f => (f.1, f.2.2)) }
+
+/-- `new_dtype`: the first array's descr, then every (name, dtype) pair not yet in the list -/
+def mergedDescr (arrs : List DArr) : List (String × DT) :=
+  arrs.foldl (fun acc a => acc ++ a.descr.filter (fun d => !acc.contains d)) []
+
+def hasDup : List String → Bool
+  | [] => false
+  | x :: xs => xs.contains x || hasDup xs
+
+/-- dtype of `name_arrays[0]`, which `overlap_arrays` gives the canvas -/
+def canvasDT (arrs : List DArr) (name : String) : DT :=
+  match arrs with
+  | [] => .f8
+  | a :: _ =>
+    match a.fields.lookup name with
+    | some f => f.1
+    | none => .f8
+
+/-- C cast of a finite double to an integer: truncation toward zero -/
+def truncR (x : Rat) : Rat := if 0 ≤ x then (x.floor : Rat) else (x.ceil : Rat)
+
+/-- assignment of a float pixel into a field of dtype `dt`; outer `none`: NaN cast to an integer
+(platform dependent, not compared) -/
+def castTo (dt : DT) (v : V) : Option V :=
+  match dt, v with
+  | .i8, none => none
+  | .i8, some x => some (some (truncR x))
+  | _, v => some v
+
+/-- one field of the structured merge: an exception class name, or shape and pixels -/
+def fieldOutcome (spc : Bool) (m : Mode) (fill : V) (ndim : Nat) (arrs : List DArr) (name : String) (dt : DT) :
+    Except String (List Int × List (Option V)) :=
+  let r := overlap spc m fill ndim (arrs.map (fun a => a.toS.field name))
+  if canvasDT arrs name = .i8 then
+    if m ≠ .replace ∧ fill = none then .error "ValueError"
+    else if m = .mean then .error "TypeError"  -- numpy's UFuncTypeError, a TypeError
+    else .ok (r.1, r.2.map (castTo .i8))
+  else .ok (r.1, r.2.map (castTo dt))
+
+/-- `overlap_structured_arrays` with dtypes: the exception class it raises, or the fields of the
+result in the order of the merged dtype -/
+def overlapStructuredD (spc : Bool) (m : Mode) (fill : V) (ndim : Nat) (arrs : List DArr) :
+    Except String (List (String × DT × (List Int × List (Option V)))) :=
+  let descr := mergedDescr arrs
+  if hasDup (descr.map (·.1)) then .error "ValueError"
+  else descr.mapM (fun d => (fieldOutcome spc m fill ndim arrs d.1 d.2).map (fun r => (d.1, d.2, r)))
+
+end Pew.Overlap
